@@ -414,9 +414,9 @@ func init() {
 		and := func(a, b *c4expr) *c4expr { return &c4expr{op: "&", args: []*c4expr{a, b}} }
 		ff, tf, ft := []bool{false, false}, []bool{true, false}, []bool{false, true}
 		run([]*c4expr{
-			or(ff, or(tf, lv(0), lv(0)), lv(1)),                          // ((*1 | 1) | 2)
-			and(or(ff, or(tf, lv(7), lv(2)), lv(8)), lv(7)),              // ((*{a: 1} | 3) | {b: 2}) & {a: 1}
-			and(or(tf, and(lv(7), lv(5)), or(ff, lv(0), lv(4))), or(tf, or(ff, lv(1), lv(4)), lv(3))), // (*({a: 1} & string) | (1 | int)) & (*(2 | int) | "a")
+			or(ff, or(tf, lv(0), lv(0)), lv(1)),                                                                       // ((*1 | 1) | 2)
+			and(or(ff, or(tf, lv(7), lv(2)), lv(8)), lv(7)),                                                           // ((*{a: 1} | 3) | {b: 2}) & {a: 1}
+			and(or(tf, and(lv(7), lv(5)), or(ff, lv(0), lv(4))), or(tf, or(ff, lv(1), lv(4)), lv(3))),                 // (*({a: 1} & string) | (1 | int)) & (*(2 | int) | "a")
 			and(and(or(tf, lv(0), lv(1)), or([]bool{false, true, false}, lv(1), lv(1), lv(0))), or(ft, lv(0), lv(1))), // ((*1 | 2) & (2 | *2 | 1)) & (1 | *2)
 		}, false)
 		run(enum, true)
